@@ -100,6 +100,9 @@ def decide(run: core.Run, rule: str, search):
 
 # how much larger than the quick workload the thorough one is (a few minutes per property on this machine)
 THOROUGH_BUDGET = {"C10": 40, "C14": 60, "C15": 20}
+# the search for a failing input after a broken proof / correspondence runs the workload again with another seed and a
+# larger budget; C15's workload is dominated by fixed large inputs, C14's by subprocesses
+SEARCH_FACTOR = {"C15": 1, "C14": 2}
 
 
 def run_property(prop: str, tier: str, seed: int, budget: int, with_lean=True) -> core.Run:
@@ -174,7 +177,7 @@ def main():
     budget = 1 if tier == "quick" else THOROUGH_BUDGET.get(prop, 100)
     try:
         run = run_property(prop, tier, seed, budget)
-        rc, lines, nviol = decide(run, run.rule, lambda: run_property(prop, tier, seed + 7919, budget * (4 if tier == "quick" else 2), with_lean=False))
+        rc, lines, nviol = decide(run, run.rule, lambda: run_property(prop, tier, seed + 7919, budget * SEARCH_FACTOR.get(prop, 4 if tier == "quick" else 2), with_lean=False))
         extra = {"rule": run.rule, "notes": run.notes}
         if tier == "thorough" and run.lean and run.lean.get("proofs_ok"):
             t = time.time()
